@@ -114,7 +114,20 @@ def rule_diagnostics(ctx):
     ctx.covered('R04.4', 'diagnostics return the mathematically defined quantities (polynomial identities on the accumulated terms)', n, floor=6, samples=samples)
 
 
+INTEGRATOR_FILES = ['integrator.c', 'integrator_bs.c', 'integrator_eos.c', 'integrator_ias15.c', 'integrator_janus.c', 'integrator_leapfrog.c',
+                    'integrator_mercurius.c', 'integrator_saba.c', 'integrator_sei.c', 'integrator_trace.c', 'integrator_whfast.c', 'integrator_whfast512.c']
+
+
+def rule_integrator_components(ctx):
+    """R04.6: a step that treats one axis differently (a scale, a sign, a mass taken from another component) breaks
+    linear and angular momentum conservation; every x/y/z statement triple of every integrator function is one formula."""
+    stats, nfun = x1.run_files(ctx, 'R04.6', INTEGRATOR_FILES)
+    ctx.covered('R04.6', 'x/y/z statement triples of every function of every integrator source file (drifts, kicks, jumps, integer conversions of JANUS, '
+                'predictor/corrector of IAS15, encounter bookkeeping) are one formula under an axis permutation', stats['groups'], floor=180, samples=stats['samples'])
+
+
 def run(ctx):
+    rule_integrator_components(ctx)
     loops = c02.rule_pairs(ctx)                # R02.3 antisymmetry, R02.7 pair indices
     c02.rule_components(ctx)                   # R02.2 X1 on force loops
     c12.rule_x1(ctx)                           # R12.2 X1 on transforms and frame changes
